@@ -5,7 +5,7 @@ import ast as _ast
 
 from ..common import all_conds, conds_at, mro_methods, nshow, outer_field, paths, visible_methods
 from ..effects import Effects, fmt_eff
-from ..expr import C, SELF, canon, norm, posform, posroot, rowform, show, strip_epochs, walk
+from ..expr import C, SELF, canon, mapx, norm, posform, posroot, rowform, show, strip_epochs, walk
 from ..model import AnalysisError
 from ._setops import combine_rule, similarity_components
 
@@ -282,7 +282,59 @@ def expanding_rules(prog, rep, E):
                         back = {strip_epochs(fv): ("f", SELF, fn, 0) for (b_, fn), fv in p.fields.items() if b_ == SELF and fv[0] not in ("c",)}
                         got = {k: back.get(strip_epochs(v), v) for k, v in got.items()}
                         sites[(f.qualname, e.where())] = tuple(sorted((k, canon(v)) for k, v in got.items()))
+        # a site inside a private helper that builds the sub-filter from its own PARAMETERS says nothing by itself: it is judged at
+        # every call of that helper (helper looked through), where the arguments are read back as the fields of the object the helper
+        # was called on - if they are the values that object's parameter fields hold at that moment
+        names_ = ["est_elements", "false_positive_rate", "filepath", "hex_string", "hash_function"]
+        by_param = {}
+        for (fq, loc), tup in list(sites.items()):
+            if any(n[0] == "p" for _, v in tup for n in walk(v)):
+                by_param[(fq, loc)] = tup
+        for (fq, loc) in by_param:
+            helper = next((m for m in visible_methods(prog, c2) if m.qualname == fq), None)
+            if helper is None or not helper.src_name.startswith("_"):
+                continue
+            resolved = []
+            K2 = prog.cls(c2)
+            private = tuple(sorted({m.qualname for k_ in K2.mro() for m in k_.methods.values()
+                                    if m.src_name.startswith("_") and not (m.src_name.startswith("__") and m.src_name.endswith("__"))}))
+            callers = [m for k_ in K2.mro() for m in list(k_.methods.values()) if m.qualname not in private]
+            for g in callers:
+                inits = tuple(sorted({k_.methods["__init__"].qualname for k_ in K2.mro() if "__init__" in k_.methods}))
+                for p in paths(prog, c2, g, force_inline=private + inits):
+                    calls = [e for e in p.events if e.kind == "call" and e.target is not None and e.target.qualname in private]
+                    for ei, e in enumerate(p.events):
+                        if e.kind == "new" and e.cls == "BloomFilter" and e.where() == loc and calls:
+                            prior = [c_ for c_ in calls if p.events.index(c_) < ei]
+                            if not prior:
+                                continue
+                            obj = strip_epochs(prior[-1].recv) if prior[-1].recv is not None else SELF
+                            got = dict(e.kwargs)
+                            for i, a_ in enumerate(e.args):
+                                got[names_[i]] = a_
+                            # the values the object's fields were last given before this construction
+                            last_ = {}
+                            for x in p.events[:ei]:
+                                if x.kind == "setfield" and strip_epochs(x.base) == obj:
+                                    last_[x.name] = strip_epochs(x.value)
+                            back = {canon(norm(fv)): ("f", SELF, fn, 0) for fn, fv in last_.items() if fv[0] not in ("c",)}
+                            # a constant argument is the field only where the field of that very meaning holds that constant
+                            for k_, suffixes in (("est_elements", ("est_elements",)), ("false_positive_rate", ("fpr", "false_positive_rate"))):
+                                if k_ in got and strip_epochs(got[k_])[0] == "c":
+                                    for fn, fv in last_.items():
+                                        if fn.endswith(suffixes) and fv == strip_epochs(got[k_]) and type(fv[1]) is type(strip_epochs(got[k_])[1]):
+                                            got[k_] = ("f", SELF, fn, 0)
+                            fix = lambda v: mapx(strip_epochs(v), lambda n: ("f", SELF, n[2], 0) if (n[0] == "f" and strip_epochs(n[1]) == obj) else back.get(canon(n)))  # noqa: E731
+                            resolved.append(tuple(sorted((k, canon(fix(v))) for k, v in got.items())))
+            if resolved:
+                del sites[(fq, loc)]
+                for i, r in enumerate(sorted(set(resolved), key=repr)):
+                    sites[(fq, f"{loc} (as called, {i})")] = r
         vals = set(sites.values())
+        import os as _os
+        if _os.environ.get("VA_DEBUG_SITES"):
+            for k_, v_ in sorted(sites.items(), key=repr):
+                print("SITE", c2, k_, [(a, show(b)[:90]) for a, b in v_])
         if len(sites) >= 1 and len(vals) == 1:
             rep.ok("C01.expanding-same-params", f"{c2}: {len(sites)} construction site(s) agree")
         elif len(vals) > 1:
